@@ -2,6 +2,7 @@ package rules
 
 import (
 	"fmt"
+	"strings"
 	"go/types"
 
 	"golang.org/x/tools/go/ssa"
@@ -43,11 +44,30 @@ func c14core(c *Ctx, f *ssa.Function) {
 	}
 	isBegin := px.DynWhere(func(s *px.Sym) bool { return isParam(s, beginP) })
 	isBody := px.DynWhere(func(s *px.Sym) bool { return isParam(s, bodyP) })
-	commit := methodNamed("Commit")
-	rollback := methodNamed("Rollback")
+	// Commit / Rollback are database/sql's: (*sql.Tx).Commit / Rollback, reached directly or through the promoted methods
+	// of a struct embedding *sql.Tx. A method of go-zero that shadows them (a session type growing its own Commit) is
+	// not trusted to commit: it is analysed in place, and what counts is the sql.Tx call it makes on each of its paths.
+	sqlMethod := func(name string) px.Pred {
+		return func(e *px.Event) bool {
+			if e.Kind != px.EvCall || e.Call == nil || e.Inlined {
+				return false
+			}
+			o := e.Call.Obj()
+			return o != nil && o.Name() == name && o.Pkg() != nil && o.Pkg().Path() == "database/sql"
+		}
+	}
+	commit := sqlMethod("Commit")
+	rollback := sqlMethod("Rollback")
+	shadow := func(ci *px.CallInfo, d int) bool {
+		if ci.Static == nil || ci.Static.Synthetic != "" || ci.Static.Blocks == nil {
+			return false
+		}
+		o := ci.Obj()
+		return o != nil && (o.Name() == "Commit" || o.Name() == "Rollback") && o.Pkg() != nil && strings.HasPrefix(o.Pkg().Path(), mod)
+	}
 	// the body has three ways out: it returns, it panics, or it ends the goroutine (runtime.Goexit — what
 	// t.FailNow/t.Fatal do inside a body): on the last one the deferred calls run and recover() sees nil
-	ps := c.paths("C14.R1", f, px.Config{MayPanic: func(ci *px.CallInfo) bool { return ci.IsDyn() },
+	ps := c.paths("C14.R1", f, px.Config{Inline: shadow, MayPanic: func(ci *px.CallInfo) bool { return ci.IsDyn() },
 		MayGoexit: func(ci *px.CallInfo) bool {
 			return ci.IsDyn() && ci.FnSym != nil && isParam(ci.FnSym, bodyP)
 		}})
